@@ -263,7 +263,16 @@ def split(
     mode = StreamTokenizer.DROP_TRAILING_SILENCE if drop_trailing_silence else 0
     if strict_min_dur:
         mode |= StreamTokenizer.STRICT_MIN_LENGTH
-    min_length = _duration_to_nb_windows(min_dur, analysis_window, math.ceil)
+    # `min_dur / analysis_window` can land a hair above an integer because of
+    # floating-point precision (e.g., 0.07 / 0.01 == 7.000000000000001), in
+    # which case `ceil` alone would require one analysis window too many. An
+    # event is always at least one analysis window long.
+    min_length = max(
+        1,
+        _duration_to_nb_windows(
+            min_dur, analysis_window, math.ceil, -_EPSILON
+        ),
+    )
     max_length = _duration_to_nb_windows(
         max_dur, analysis_window, math.floor, _EPSILON
     )
